@@ -430,6 +430,32 @@ func genC19() (string, []string) {
 `, reg, sig, vuse, callback, inner, outer, id, nOuter, nInner))
 		}
 	}
+	// Set binds a NAME: rebinding one name does not change what other names (or captured Values) of the old function do
+	add("set_rebinds_one_name_only", prelude(2, 0)+`	addF := NewFunc(2, 1, func(v *VM, args []Value) Value { return Int32(int32(args[0].Int()) + int32(args[1].Int())) })
+	mulF := NewFunc(2, 1, func(v *VM, args []Value) Value { return Int32(int32(args[0].Int()) * int32(args[1].Int())) })
+	vm.Set("main.add", addF)
+	vm.Set("main.plus", addF) // the same function Value under a second name
+	if _, err := verifEval(vm, verifMkFS(nil), "func tickA() int { return 1 }\nfunc tickB() int { return 2 }\nfunc useAdd(x, y int) int { return add(x, y) }\nfunc usePlus(x, y int) int { return plus(x, y) }", 0); err != nil {
+		verifAssert(false, "C19/set/eval")
+		return
+	}
+	hook := vm.Get("main.tickA")
+	vm.Set("main.hook", hook)
+	vm.Set("main.plus", mulF)          // rebind the second name
+	vm.Set("main.hook", vm.Get("main.tickB")) // and the hook
+	r1, e1 := vm.Call("main.useAdd", 1, Int32(a[0]), Int32(a[1]))
+	r2, e2 := vm.Call("main.usePlus", 1, Int32(a[0]), Int32(a[1]))
+	r3, e3 := vm.Call("main.tickA", 1)
+	r4, e4 := vm.Call("main.hook", 1)
+	r5, e5 := vm.Func(hook, 1)
+	verifAssert(e1 == nil && e2 == nil && e3 == nil && e4 == nil && e5 == nil, "C19/set/outcome")
+	if e1 == nil && e2 == nil && e3 == nil && e4 == nil && e5 == nil {
+		verifAssert(len(r1) == 1 && r1[0].num == float64(a[0]+a[1]), "C19/set/other-name-keeps-the-old-function")
+		verifAssert(len(r2) == 1 && r2[0].num == float64(a[0]*a[1]), "C19/set/rebound-name-runs-the-new-function")
+		verifAssert(len(r3) == 1 && r3[0].num == 1 && len(r4) == 1 && r4[0].num == 2 && len(r5) == 1 && r5[0].num == 1, "C19/set/script-function-unchanged-by-rebinding-a-hook")
+	}
+	verifAssert(vm.Get("main.plus").value == mulF.value && vm.Get("main.add").value == addF.value, "C19/set/get-returns-what-was-set")
+`)
 	// host-built struct instances: NewStruct / SetAttr / GetAttr round trips, independence of instances built from one
 	// base, and of script-built instances from host-built ones
 	add("newstruct_instances_independent", prelude(3, 0)+`	if _, err := verifEval(vm, verifMkFS(nil), "type T struct {\n\tX int\n\tS string\n\tB byte\n}\nfunc (t *T) Get() int { return t.X + 1 }\nfunc fresh() int { t := &T{}; return t.X*10 + len(t.S) }\nfunc rd(t *T) int { return t.X }", 0); err != nil {
